@@ -101,7 +101,9 @@ class Slicer:
             c = node.get("callee")
             path = None
             if c:
-                path = c["res"]["path"] if c.get("res") else c["path"]
+                path = c["path"]
+                if c.get("res") and c["res"]["path"] != c["path"]:
+                    path = c["path"] + " => " + c["res"]["path"]
             else:
                 path = "<indirect>"
             args = tuple(self.operand(a, depth, seen) for a in node["args"])
@@ -155,7 +157,10 @@ class Slicer:
             k = o["k"]
             if "fn" in k:
                 f = k["fn"]
-                return ("fnptr", f["res"]["path"] if f.get("res") else f["path"])
+                fp = f["path"]
+                if f.get("res") and f["res"]["path"] != fp:
+                    fp = fp + " => " + f["res"]["path"]
+                return ("fnptr", fp)
             if "closure" in k:
                 return ("agg", "closure:" + k["closure"], ())
             if "v" in k:
@@ -290,7 +295,7 @@ def show(t, depth=0):
     if h == "ref":
         return "&%s" % show(t[1])
     if h == "call":
-        return "%s(%s)" % (t[1].split("::")[-1] if "<" not in t[1] else t[1].rsplit("::", 1)[-1], ", ".join(show(a) for a in t[2]))
+        return "%s(%s)" % (t[1].split(" => ")[0].rsplit("::", 1)[-1], ", ".join(show(a) for a in t[2]))
     if h == "bin":
         return "%s(%s, %s)" % (t[1], show(t[2]), show(t[3]))
     if h == "un":
